@@ -12,6 +12,9 @@ class LOOP:
     ghost_update: Dict[str, str] = field(default_factory=dict)  # ghost := expr at end of each iteration
     use: List[Tuple[str, Dict[str, str]]] = field(default_factory=list)  # lemma instances for preserve VCs
     ghost_head: Dict[str, str] = field(default_factory=dict)    # ghost := expr at the start of each iteration
+    # per-iteration step contract: clauses relating the state at the start of the iteration (ghost_head
+    # snapshots) to the state at its end; checked on every way of finishing an iteration (fall, continue, break)
+    step: List[Tuple[str, str]] = field(default_factory=list)
     ghost_init: Dict[str, str] = field(default_factory=dict)    # ghost := expr once, when the loop is reached
 
 
@@ -58,3 +61,4 @@ class LEMMA:
     ih: List[Tuple[str, Dict[str, str]]] = field(default_factory=list)   # (guard, substitution)
     use: List[Tuple[str, Dict[str, str]]] = field(default_factory=list)
     notes: str = ""
+    assumed: bool = False      # an axiom about uninterpreted (external) functions: listed as assumption, not proved
